@@ -39,10 +39,17 @@ pub fn layer_build(proto: Proto, layer: Layer, keys: &LibKeys, nonce: &[u8], msg
       if l == Layer::Prelude {
         b.set(&nbf)?;
       }
+      let reuse = msg.len() % 5 == 1; // setters called twice: the value set last counts
       if let Some(f) = footer {
+        if reuse {
+          b.footer("decoy-footer");
+        }
         b.footer(f);
       }
       if let Some(a) = assertion {
+        if reuse {
+          b.assertion("decoy-assertion");
+        }
         if !b.assertion(a) {
           return Err(LibErr::other("harness: v1/v2 take no implicit assertion"));
         }
@@ -57,10 +64,17 @@ pub fn layer_parse<'a>(proto: Proto, layer: Layer, keys: &'a LibKeys<'a>, token:
     Layer::Core => core_parse(keys, token, footer, assertion).map(LayerOut::Text),
     l => {
       let mut p = new_parser(proto, l);
+      let reuse = token.len() % 5 == 1; // setters called twice: the value set last counts
       if let Some(f) = footer {
+        if reuse {
+          p.footer("decoy-footer");
+        }
         p.footer(f);
       }
       if let Some(a) = assertion {
+        if reuse {
+          p.assertion("decoy-assertion");
+        }
         if !p.assertion(a) {
           return Err(LibErr::other("harness: v1/v2 take no implicit assertion"));
         }
